@@ -3,6 +3,7 @@ package erpc
 import (
 	"errors"
 	"fmt"
+	"io"
 	"net"
 )
 
@@ -13,7 +14,7 @@ func init() {
 // VX_C13_Redial: a client session created with redial enabled loses its
 // connection while a call is in flight. Dial attempts and the dial hook's
 // verdicts after the loss are solver-chosen.
-// args: redialTimes(1,2; 9 = unlimited(-1)), lossBy(0 reader sees EOF, 1 remote closed then a call is attempted), userID(0/1)
+// args: redialTimes(1,2; 9 = unlimited(-1)), lossBy(0 reader sees EOF, 1 remote closed and writes fail, 2 a writer notices the loss before the reader), userID(0/1)
 func VX_C13_Redial(args []int) {
 	R, lossBy, userID := args[0], args[1], args[2]
 	rt := int32(R)
@@ -62,6 +63,13 @@ func VX_C13_Redial(args []int) {
 	inflight := s.AsyncCall("/a", []byte("x"), new([]byte), ch)
 	vxAssert(conns[0].nWrites() == 1 && !vxDone(inflight), "call in flight")
 	// unexpected connection loss
+	if lossBy == 2 {
+		// a writer notices the loss first (its write fails with EOF), the reader afterwards
+		conns[0].failWrite = io.EOF
+		w := s.AsyncCall("/w", []byte("w"), new([]byte), make(chan CallCmd, 1))
+		vxWaitIdle()
+		vxAssert(vxDone(w) || s.Health(), "call that noticed the loss does not hang")
+	}
 	conns[0].end()
 	if lossBy == 1 {
 		conns[0].failWrite = errVxClosed
@@ -72,6 +80,10 @@ func VX_C13_Redial(args []int) {
 		vxAssert(!inflight.StatusOK() && IsConnError(inflight.Status()), "with a connection error")
 	}
 	vxAssert(len(ch) == 1, "[C02] delivered once")
+	note := ""
+	if lossBy == 2 {
+		note = " (a writer noticed the loss before the reader)"
+	}
 	got, listed := p.GetSession(s.ID())
 	redialed := listed && got == s
 	if redialed {
@@ -91,9 +103,9 @@ func VX_C13_Redial(args []int) {
 		select {
 		case <-s.CloseNotify():
 		default:
-			vxFail("attempts exhausted: close notification fired")
+			vxFail("session not listed after the loss: close notification fired" + note)
 		}
-		vxAssert(p.CountSession() == 0, "attempts exhausted: session left the index")
+		vxAssert(p.CountSession() == 0, "attempts exhausted: session left the index"+note)
 		before := attempts
 		c3 := s.AsyncCall("/c", []byte("z"), new([]byte), make(chan CallCmd, 1))
 		vxWaitIdle()
